@@ -366,8 +366,7 @@ func c06Sponge(c *Ctx) {
 				for _, ci := range ana.Calls(fn) {
 					t := b.CallTermAt(ci)
 					// in(src[k][i:], k), or the whole lane with the block offset: in(src[k], i, k)
-					if matches("call<"+inName+">(_, slice(load(iaddr(p1, bin<+>(ind<+1>(-1), 1))), ind<+243>(0), none), conv<uint>(bin<+>(ind<+1>(-1), 1)))", t) ||
-						matches("call<"+inName+">(_, load(iaddr(p1, bin<+>(ind<+1>(-1), 1))), ind<+243>(0), alt(bin<+>(ind<+1>(-1), 1), conv<uint>(bin<+>(ind<+1>(-1), 1))))", t) {
+					if laneCall(t, inName, "p1") {
 						inCall = ci
 					}
 					if ci.Common().StaticCallee() != nil && ci.Common().StaticCallee() == curlMethod {
@@ -430,8 +429,7 @@ func c06Sponge(c *Ctx) {
 					if ci.Common().StaticCallee() != nil && ci.Common().StaticCallee() == curlMethod {
 						trCall = ci
 					}
-					if matches("call<"+outName+">(_, slice(load(iaddr(_, bin<+>(ind<+1>(-1), 1))), ind<+243>(0), none), conv<uint>(bin<+>(ind<+1>(-1), 1)))", t) ||
-						matches("call<"+outName+">(_, load(iaddr(_, bin<+>(ind<+1>(-1), 1))), ind<+243>(0), alt(bin<+>(ind<+1>(-1), 1), conv<uint>(bin<+>(ind<+1>(-1), 1))))", t) {
+					if laneCall(t, outName, "_") {
 						outCall = ci
 					}
 				}
@@ -629,6 +627,37 @@ func laneLoopHas(loops []rangeLoop, blk *ssa.BasicBlock) bool {
 		if l.Coll.IsParam(1) && l.Blocks[blk] {
 			return true
 		}
+	}
+	return false
+}
+
+// laneCall: t is the per-lane call name(recv, …) inside the lane loop over coll — the block of lane k as
+// coll[k][i:] plus the lane k, or the whole lane coll[k] with the block offset i and the lane k (offset before lane, as
+// laneArgs reads the signature); the trit slice and the lane may come in either order.
+func laneCall(t *ana.Term, name, coll string) bool {
+	t = stripObj(t)
+	if t == nil || t.Op != "call" || t.Name != name || len(t.Args) < 3 {
+		return false
+	}
+	const k = "bin<+>(ind<+1>(-1), 1)"
+	kinds := ""
+	for _, a := range t.Args[1:] {
+		switch {
+		case matches("slice(load(iaddr("+coll+", "+k+")), ind<+243>(0), none)", a):
+			kinds += "S"
+		case matches("load(iaddr("+coll+", "+k+"))", a):
+			kinds += "L"
+		case matches("ind<+243>(0)", a):
+			kinds += "O"
+		case matches("alt("+k+", conv<uint>("+k+"), conv<int>("+k+"))", a):
+			kinds += "K"
+		default:
+			return false
+		}
+	}
+	switch kinds {
+	case "SK", "KS", "LOK", "OLK", "OKL":
+		return true
 	}
 	return false
 }
